@@ -341,6 +341,13 @@ func main() {
 			}
 		}
 	}
+	// zero gas meets the custody decorator's first store read before its nil dereference
+	{
+		c := baseCfg()
+		c.Custody = []c09lib.Cust{{"a1", true, -1}}
+		m := c09lib.M{Kind: "send", From: "a1", To: "a2", Amt: sdk.NewCoins(sdk.NewInt64Coin("ukex", 9))}
+		run(c, c09lib.TxSpec{Fee: fee(150), Msgs: []c09lib.M{m}, Seqs: []uint64{0}, SigOK: true, NoGas: true}, "zero-gas-custody")
+	}
 	// explicit fee payer, zero gas, fee granter
 	{
 		c := baseCfg()
